@@ -595,8 +595,10 @@ func (q *c18PacketQueue) WriteTo(p []byte, a net.Addr) (int, error) {
 	q.dst = append(q.dst, a)
 	return len(p), nil
 }
-func (q *c18PacketQueue) Close() error                     { return nil }
-func (q *c18PacketQueue) LocalAddr() net.Addr              { return &net.UDPAddr{IP: net.IPv4(127, 0, 0, 1), Port: 9} }
+func (q *c18PacketQueue) Close() error { return nil }
+func (q *c18PacketQueue) LocalAddr() net.Addr {
+	return &net.UDPAddr{IP: net.IPv4(127, 0, 0, 1), Port: 9}
+}
 func (q *c18PacketQueue) SetDeadline(time.Time) error      { return nil }
 func (q *c18PacketQueue) SetReadDeadline(time.Time) error  { return nil }
 func (q *c18PacketQueue) SetWriteDeadline(time.Time) error { return nil }
